@@ -41,9 +41,14 @@ def proof_block(rep, prop_id, coq_ok, coq_out):
     broken = None
     if not theorems:
         broken = "properties/%s.v has no theorems" % prop_id
-    elif not coq_ok or not built:
-        m = re.search(r'File "([^"]+)", line (\d+)[^\n]*\n((?:.*\n){0,6})', coq_out + out)
-        broken = "proof obligation no longer checks: %s" % (m.group(0).strip() if m else "coq build failed")
+    elif not built:
+        mine = cm.coq_failed_for(prop_id, coq_out) if not coq_ok else None
+        text = coq_out + out
+        m = None
+        for f in mine or []:
+            m = m or re.search(r'File "\./%s", line (\d+)[^\n]*\n((?:.*\n){0,6})' % re.escape(f), text)
+        m = m or re.search(r'File "([^"]+)", line (\d+)[^\n]*\n((?:.*\n){0,6})', text)
+        broken = "proof obligation no longer checks%s: %s" % (" (%s)" % ", ".join(mine) if mine else "", m.group(0).strip() if m else "coq build failed")
     elif forb:
         broken = "forbidden declarations present: %s" % forb[:5]
     elif axioms or closed < len(theorems):
@@ -62,8 +67,9 @@ def run_check(prop_id, tier, seed, replay=None):
     coq_ok, coq_out = cm.build_coq()
     try:
         cm.build_model()
-    except RuntimeError:
-        coq_ok = False
+    except RuntimeError as e:
+        # the executable model itself does not build: nothing can be attributed to single files
+        coq_ok, coq_out = False, "model build failed: %s" % str(e)[-400:]
     ok, msg = cm.build_harness()
     if not ok:
         # the harness does not build against the current tree: nothing can be shown
